@@ -81,6 +81,10 @@ type sysRun struct {
 	WatchErr    string            `json:"watchErr,omitempty"` // "" | "wait:<n>:<j>" | "mut:<k>" (while mutating request k is in flight; after the cancellation, if one is scheduled at the same request): the watcher reports a fatal error at that point
 	EnvDel      []jid             `json:"envDel,omitempty"`   // objects another actor deletes before this run
 	Initial     []jid             `json:"initial,omitempty"`  // objects whose current status (Current, live generation/uid) the watcher reports before its sync event
+	// Real: the run uses the library's REAL DefaultStatusWatcher (informers over the fake cluster's LIST / WATCH) instead of the
+	// scripted one; `ctrl` / `del` then DESCRIBE what kstatus computes for the kinds involved (a Deployment without status never
+	// becomes Current, everything else is Current once it exists, a deleted object is gone unless a finalizer holds it)
+	Real bool `json:"real,omitempty"`
 }
 
 type sysIn struct {
@@ -726,11 +730,15 @@ func runOne(c *fakecluster.Cluster, run sysRun) (out runOut) {
 		prop = "" // left to the library's default, which is Background
 	}
 
+	var swUsed watcher.StatusWatcher = sw
+	if run.Real {
+		swUsed = watcher.NewDefaultStatusWatcher(dyn, mapper)
+	}
 	var ch <-chan event.Event
 	if run.Kind == "destroy" {
 		d, err := apply.NewDestroyerBuilder().WithFactory(f).WithDynamicClient(dyn).WithRestMapper(mapper).
 			WithUnstructuredClientForMapping(clientFor).
-			WithInventoryClient(invClient).WithStatusWatcher(sw).Build()
+			WithInventoryClient(invClient).WithStatusWatcher(swUsed).Build()
 		if err != nil {
 			out.Anomaly = "build: " + err.Error()
 			return
@@ -740,7 +748,7 @@ func runOne(c *fakecluster.Cluster, run sysRun) (out runOut) {
 	} else {
 		a, err := apply.NewApplierBuilder().WithFactory(f).WithDynamicClient(dyn).WithRestMapper(mapper).
 			WithUnstructuredClientForMapping(clientFor).
-			WithInventoryClient(invClient).WithStatusWatcher(sw).Build()
+			WithInventoryClient(invClient).WithStatusWatcher(swUsed).Build()
 		if err != nil {
 			out.Anomaly = "build: " + err.Error()
 			return
@@ -1024,7 +1032,9 @@ loop:
 			out.Events = append(out.Events, ce)
 			switch e.Type {
 			case event.InitType:
-				go beforeSync()
+				if !run.Real {
+					go beforeSync()
+				}
 				groups = e.InitEvent.ActionGroups
 				for _, g := range groups {
 					if g.Action == event.WaitAction {
@@ -1066,7 +1076,7 @@ loop:
 				}
 			}
 			mu.Unlock()
-			if e.Type == event.WaitType && e.WaitEvent.Status == event.ReconcileTimeout && !run.Opts.EmitStatus && !lateStatusDone[e.WaitEvent.GroupName] && morePending {
+			if e.Type == event.WaitType && e.WaitEvent.Status == event.ReconcileTimeout && !run.Opts.EmitStatus && !lateStatusDone[e.WaitEvent.GroupName] && morePending && !run.Real {
 				// the deadline of the phase has fired and its Timeout events are being sent: this is the first, at least one more is
 				// to come, so the ending wait task is still sending (it waits for this reader) and the runner is idle in its select.
 				// The runner is handed one more status report for an object of the phase — a repetition of the last one, which
@@ -1086,7 +1096,7 @@ loop:
 				if e.ActionGroupEvent.Status == event.Started {
 					waitIdx++
 					for _, g := range groups {
-						if g.Name == name {
+						if g.Name == name && !run.Real {
 							wg.Add(1)
 							go drive(g, waitIdx)
 						}
@@ -1118,6 +1128,18 @@ loop:
 		}
 	}
 	out.WatcherStopped = sw.stoppedNow()
+	if run.Real {
+		// the real watcher: every WATCH stream it opened has been stopped (the informers end with the watcher's context; the
+		// streams are stopped by their reflectors on the way out)
+		out.WatcherStopped = false
+		for i := 0; i < 200 && !out.WatcherStopped; i++ {
+			if c.ActiveWatches() == 0 {
+				out.WatcherStopped = true
+			} else {
+				time.Sleep(10 * time.Millisecond)
+			}
+		}
+	}
 	stopOnce.Do(func() { close(stop) })
 	c.MarkClosed()
 	wg.Wait()
